@@ -235,7 +235,7 @@ PROFILES = {
     'C09': {
         'flavor': 'asan', 'model_stream': 'routing',
         'gen_model': _gen_model_any, 'gen_runs': lambda rng, mb, n: tapes.gen_c09_runs(rng, mb, n),
-        'judge': oracles.judge_c09, 'judge_static': _no_static,
+        'judge': oracles.judge_c09, 'judge_static': oracles.judge_static_c09,
         'collect': _collect_c09, 'nontrivial': lambda mb, run, res: True,
         'site': _site_default, 'pairs': _pairs_c09,
     },
